@@ -16,7 +16,7 @@ PROPERTY = "C06"
 
 # CODE VARIANT FLAGS — which variant of the code the model is compared with (fields of `Variant` in
 # lean/RichModel/Model/ColorParse.lean).  1 = rich 9.10.0 as found, 0 = repaired (see /verif/pending_fixes).
-RGB_VALUEERROR = 1      # F9 (owned by C14): Color.parse("rgb(1,,2)") raises ValueError, not ColorParseError
+RGB_VALUEERROR = 0      # F9 (owned by C14): Color.parse("rgb(1,,2)") raises ValueError, not ColorParseError
 ADD_HASH = 0            # F3: Style.__add__ stores the right operand's hash
 FROM_COLOR_HASH = 0     # F4: Style.from_color hashes (color, bgcolor, None, None, None)
 WITHOUT_COLOR_HASH = 0  # F5: Style.without_color copies the old hash
